@@ -24,7 +24,7 @@ from ..fin import fm, T, D, err_class, magnitude
 from .c11 import (DAY, GAPS, SHAPES, Qf, Z, _val, consumer_grid, end_of_link, freeze_once, ghost_values, make_grid, make_notified,
                   request_ops, set_memory,
                   to_source_cells)
-from .c11 import coq_obs as _c11_coq_obs
+from .c11 import coq_results as _c11_coq_obs
 
 ID = "C12"
 TITLE = "Time integration adapters conserve the integral"
